@@ -1087,7 +1087,47 @@ def probe_mesh_roundtrip(root):
     return out
 
 
-PROBES = {"mesh_roundtrip": probe_mesh_roundtrip, "phasefield_save": probe_phasefield_save, "phasefield_history": probe_phasefield_history, "inelastic_state": probe_inelastic_state,
+def probe_write_origins(root):
+    """per configuration and per ORIGIN of a returned array (Get_results / Set_Iter of an in-memory entry, of an
+    on-disk entry, Result(.., iter=)): write one cell in place, then look at the stored iterations and the live
+    fields again"""
+    out = {}
+    seen_cls = set()
+    for name, cls in ADAPTERS.items():
+        if os.environ.get("VERIF_TIER", "quick") == "quick":
+            # wall time: one mode per simulation class in the quick tier, every configuration in the thorough tier
+            if name.split("_")[0] in seen_cls:
+                continue
+            seen_cls.add(name.split("_")[0])
+        out[name] = {}
+        ad = cls()
+        s = ad.build("")
+        ad.solve(s, 1)
+        s.Save_Iter()                                   # iteration 0 in memory
+        s.folder = os.path.join(root, "wo_" + name)
+        ad.solve(s, 2)
+        s.Save_Iter()                                   # iteration 1 on disk
+        ad.solve(s, 3)
+        for no, origin in enumerate(("Get_results:inmem", "Get_results:disk", "Set_Iter:inmem", "Set_Iter:disk", "Result(iter=)")):
+            i = 0 if origin.endswith("inmem") or origin.startswith("Result") else 1
+            k = 0
+            if origin.startswith("Get_results"):
+                arr = ad.entry_fields(s.Get_results(i))[k]
+            elif origin.startswith("Set_Iter"):
+                arr = ad.entry_fields(s.Set_Iter(i))[k]
+            else:
+                arr = s.Result(ad.results[0], iter=i)
+            store0 = [[sha(x) for x in ad.entry_fields(raw_entry(s, j))] for j in range(s.Niter)]
+            live0 = [sha(x) for x in ad.live(s)]
+            fill_part(arr if not isinstance(arr, np.ndarray) or arr.flags["C_CONTIGUOUS"] else np.ascontiguousarray(arr), 0, 12345.0 + no)
+            store1 = [[sha(x) for x in ad.entry_fields(raw_entry(s, j))] for j in range(s.Niter)]
+            live1 = [sha(x) for x in ad.live(s)]
+            out[name][origin] = {"field": ad.keys[k], "store_changed": store0 != store1, "live_changed": live0 != live1}
+    nviol = sum(1 for a in out.values() for o in a.values() if o["store_changed"])
+    return {"observed": out, "violates": nviol > 0, "n_store_changed": nviol}
+
+
+PROBES = {"write_origins": probe_write_origins, "mesh_roundtrip": probe_mesh_roundtrip, "phasefield_save": probe_phasefield_save, "phasefield_history": probe_phasefield_history, "inelastic_state": probe_inelastic_state,
           "algo_change": probe_algo_change, "init_shared": probe_init_shared,
           "save_then_folder_change": probe_save_then_folder_change}
 
